@@ -51,7 +51,7 @@ func ct_unpack(s *unpackedScalar, in []byte) *unpackedScalar {
 	return s
 }
 
-//verif:ob prop=C05 name=unpack mode=int tags=purego prove=ct_unpack
+//verif:ob prop=C05,C06 name=unpack mode=int tags=purego prove=ct_unpack
 func vh_unpack() {
 	var in [32]byte
 	verif.AnyBytes("in", in[:])
@@ -71,7 +71,7 @@ func ct_pack(s *unpackedScalar, out []byte) {
 	verif.Ensures(verif.IntLE(out).Eq(v), "le(out) = value")
 }
 
-//verif:ob prop=C05 name=pack mode=int tags=purego prove=ct_pack
+//verif:ob prop=C05,C06 name=pack mode=int tags=purego prove=ct_pack
 func vh_pack() {
 	s := anyUnpacked("s")
 	var out [32]byte
@@ -98,14 +98,14 @@ func fL() verif.Int {
 	return verif.IntLit("0x1000000000000000000000000000000014def9dea2f79cd65812631a5cf5d3ed")
 }
 
-//verif:ob prop=C05 name=unpacked_Sub mode=int tags=purego prove=ct_Sub
+//verif:ob prop=C05,C06 name=unpacked_Sub mode=int tags=purego prove=ct_Sub
 func vh_Sub() {
 	a, b := anyUnpacked("a"), anyUnpacked("b")
 	var s unpackedScalar
 	ct_Sub(&s, a, b)
 }
 
-//verif:ob prop=C05 name=unpacked_Sub_aliased mode=int tags=purego prove=ct_Sub
+//verif:ob prop=C05,C06 name=unpacked_Sub_aliased mode=int tags=purego prove=ct_Sub
 func vh_Sub_alias() {
 	a, b := anyUnpacked("a"), anyUnpacked("b")
 	ct_Sub(a, a, b)
@@ -126,7 +126,7 @@ func ct_Add(s, a, b *unpackedScalar) *unpackedScalar {
 	return s
 }
 
-//verif:ob prop=C05 name=unpacked_Add mode=int tags=purego prove=ct_Add use=ct_Sub
+//verif:ob prop=C05,C06 name=unpacked_Add mode=int tags=purego prove=ct_Add use=ct_Sub
 func vh_Add() {
 	a, b := anyUnpacked("a"), anyUnpacked("b")
 	var s unpackedScalar
@@ -158,7 +158,7 @@ func colsOK(z *[18]uint64) {
 	verif.Ensures(ok, "column high words < 5*2^40")
 }
 
-//verif:ob prop=C05 name=scalarMulInternal mode=int tags=purego prove=ct_mulInternal
+//verif:ob prop=C05,C06 name=scalarMulInternal mode=int tags=purego prove=ct_mulInternal
 func vh_mulInternal() {
 	a, b := anyUnpacked("a"), anyUnpacked("b")
 	ct_mulInternal(a, b)
@@ -179,7 +179,7 @@ func ct_squareInternal(s *unpackedScalar) [18]uint64 {
 	return z
 }
 
-//verif:ob prop=C05 name=squareInternal mode=int tags=purego prove=ct_squareInternal
+//verif:ob prop=C05,C06 name=squareInternal mode=int tags=purego prove=ct_squareInternal
 func vh_squareInternal() {
 	s := anyUnpacked("s")
 	ct_squareInternal(s)
@@ -206,7 +206,7 @@ func ct_MontgomeryReduce(s *unpackedScalar, limbs *[18]uint64) *unpackedScalar {
 	return s
 }
 
-//verif:ob prop=C05 name=MontgomeryReduce mode=int tags=purego prove=ct_MontgomeryReduce use=ct_Sub timeout=300
+//verif:ob prop=C05,C06 name=MontgomeryReduce mode=int tags=purego prove=ct_MontgomeryReduce use=ct_Sub timeout=300
 func vh_MontgomeryReduce() {
 	var limbs [18]uint64
 	verif.AnyU64s("z", limbs[:])
@@ -231,7 +231,7 @@ func ct_MontgomeryMul(s, a, b *unpackedScalar) *unpackedScalar {
 	return s
 }
 
-//verif:ob prop=C05 name=MontgomeryMul mode=int tags=purego prove=ct_MontgomeryMul use=ct_mulInternal,ct_MontgomeryReduce
+//verif:ob prop=C05,C06 name=MontgomeryMul mode=int tags=purego prove=ct_MontgomeryMul use=ct_mulInternal,ct_MontgomeryReduce
 func vh_MontgomeryMul() {
 	a, b := anyUnpacked("a"), anyUnpacked("b")
 	ct_MontgomeryMul(a, a, b)
@@ -250,7 +250,7 @@ func ct_MontgomerySquare(s, a *unpackedScalar) *unpackedScalar {
 	return s
 }
 
-//verif:ob prop=C05 name=MontgomerySquare mode=int tags=purego prove=ct_MontgomerySquare use=ct_squareInternal,ct_MontgomeryReduce
+//verif:ob prop=C05,C06 name=MontgomerySquare mode=int tags=purego prove=ct_MontgomerySquare use=ct_squareInternal,ct_MontgomeryReduce
 func vh_MontgomerySquare() {
 	a := anyUnpacked("a")
 	ct_MontgomerySquare(a, a)
@@ -269,13 +269,13 @@ func ct_unpackedMul(s, a, b *unpackedScalar) *unpackedScalar {
 	return s
 }
 
-//verif:ob prop=C05 name=unpacked_Mul mode=int tags=purego prove=ct_unpackedMul use=ct_mulInternal,ct_MontgomeryReduce
+//verif:ob prop=C05,C06 name=unpacked_Mul mode=int tags=purego prove=ct_unpackedMul use=ct_mulInternal,ct_MontgomeryReduce
 func vh_unpackedMul() {
 	a, b := anyUnpacked("a"), anyUnpacked("b")
 	ct_unpackedMul(a, a, b)
 }
 
-//verif:ob prop=C05 name=unpacked_Square mode=int tags=purego use=ct_mulInternal,ct_squareInternal,ct_MontgomeryReduce
+//verif:ob prop=C05,C06 name=unpacked_Square mode=int tags=purego use=ct_mulInternal,ct_squareInternal,ct_MontgomeryReduce
 func vh_unpackedSquare() {
 	a := anyUnpacked("a")
 	verif.Assume(unpackedOK(a))
@@ -286,7 +286,7 @@ func vh_unpackedSquare() {
 	verif.Assert(verif.ModEq(val52(&s), va.Mul(va), fL()), "result ≡ a^2 (mod L)")
 }
 
-//verif:ob prop=C05 name=To_From_Montgomery mode=int tags=purego use=ct_mulInternal,ct_MontgomeryReduce
+//verif:ob prop=C05,C06 name=To_From_Montgomery mode=int tags=purego use=ct_mulInternal,ct_MontgomeryReduce
 func vh_toFromMontgomery() {
 	a := anyUnpacked("a")
 	verif.Assume(unpackedOK(a))
